@@ -18,7 +18,7 @@
     equality of the link keys as the grouper reads them; the last two classes are exactly where that
     differs from equality of the stored link values.  [fa], [fb]: the fields the two schemas declare. *)
 From Coq Require Import NArith ZArith List Bool Sorted.
-From Snel Require Import Base.Bytes Model.Sequence Proofs.SequenceProofs.
+From Snel Require Import Base.Bytes Model.Sequence Proofs.SequenceProofs Proofs.SequenceOnce.
 Import ListNotations.
 Open Scope N_scope.
 
@@ -115,3 +115,18 @@ Theorem C15_limit_bounds : forall lk wh ta tb n la lb,
   matcher lk wh ta tb (Some n) la lb = firstn (N.to_nat n) (matcher lk wh ta tb None la lb).
 Proof. exact limit_bounds. Qed.
 Print Assumptions C15_limit_bounds.
+
+(** No a-event is matched twice: when the a-rows given to the matcher are pairwise different (rows
+    carry their position), the a-components of the returned pairs are pairwise different — for
+    both links, every WHERE, every LIMIT, every b-list ([subseq]: Proofs/SequenceOnce.v). *)
+Theorem C15_each_a_matched_at_most_once : forall lk wh ta tb limit la lb,
+  NoDup la -> NoDup (map fst (matcher lk wh ta tb limit la lb)).
+Proof. exact matched_once. Qed.
+Print Assumptions C15_each_a_matched_at_most_once.
+
+(** Within a link group the matched a-rows are reported in the order of the group's a-rows (time
+    order), each at most once: the a-components are a subsequence of the group's a-list. *)
+Theorem C15_group_matches_follow_a_rows : forall lk w g,
+  subseq (map fst (match_group lk w g)) (g_a g).
+Proof. exact group_matches_follow_a_rows. Qed.
+Print Assumptions C15_group_matches_follow_a_rows.
